@@ -39,6 +39,26 @@ Theorem C35_all_sequences :
 Proof. exact all_builds. Qed.
 Print Assumptions C35_all_sequences.
 
+(* WHEN Complete trims (complete_spec only says that nothing but trailing white space is cut):
+   a build whose last operation is Format x tags (x and tags non-empty) returns everything written
+   before x followed by x without its trailing white space; a build whose last operation is Plain x
+   returns the whole text. *)
+Theorem C35_trims_when_last_block_formatted :
+  forall (m : mstate) (ops : list uop) (x tags : list Z),
+    fresh (m_b m) -> build_ok s_init ops -> Forall cp_valid x -> x <> [] -> tags <> [] ->
+    exists es, snd (exec m (map (enc_uop (length (m_toks m))) (ops ++ [UFormat x tags]) ++ [OComplete]))
+               = [Ok (utf8_encode (s_text (srun ops) ++ trim_cps x), es)].
+Proof. exact build_trims_after_format. Qed.
+Print Assumptions C35_trims_when_last_block_formatted.
+
+Theorem C35_no_trim_after_plain :
+  forall (m : mstate) (ops : list uop) (x : list Z),
+    fresh (m_b m) -> build_ok s_init ops -> Forall cp_valid x ->
+    exists es, snd (exec m (map (enc_uop (length (m_toks m))) (ops ++ [UPlain x]) ++ [OComplete]))
+               = [Ok (utf8_encode (s_text (srun ops) ++ x), es)].
+Proof. exact build_keeps_after_plain. Qed.
+Print Assumptions C35_no_trim_after_plain.
+
 (* The length function generated from utf16RuneLen, summed over Go's decoding of a valid string,
    is the UTF-16 length of its code points; Go's byte-level trimming is Unicode trimming. *)
 Theorem C35_compute_length :
